@@ -36,6 +36,34 @@ func hostileBytes(n J, b *bytes.Buffer) {
 		}
 	case "wide":
 		d := int(num(n["n"]))
+		switch n["kind"] {
+		case "langmap":
+			b.WriteByte('{')
+			for i := 0; i < d; i++ {
+				if i > 0 {
+					b.WriteByte(',')
+				}
+				fmt.Fprintf(b, `"l%d":"text %d"`, i, i)
+			}
+			b.WriteByte('}')
+			return
+		case "members", "repeated":
+			b.WriteString(`{"id":"https://example.com/wide","type":"Note"`)
+			for i := 0; i < d; i++ {
+				if n["kind"] == "members" {
+					fmt.Fprintf(b, `,"x%d":"v"`, i)
+				} else {
+					fmt.Fprintf(b, `,"name":"v%d"`, i)
+				}
+			}
+			b.WriteByte('}')
+			return
+		case "escapes":
+			b.WriteString(`{"id":"https://example.com/wide","type":"Note","content":"`)
+			b.WriteString(strings.Repeat(`\"<p>x\\y</p>\n\u00e9`, d))
+			b.WriteString(`"}`)
+			return
+		}
 		b.WriteByte('[')
 		for i := 0; i < d; i++ {
 			if i > 0 {
